@@ -137,6 +137,22 @@ pub fn artefacts(tier: &str, seed: u64, out: &mut Out) {
             emit(out, &format!("g{}", gi), &kind, &src, Some(&all_src));
         }
     }
+    // hand-written shapes: l-value paths of a member of a conditional with a path-less branch (model:, wx:for list, event and
+    // change: bindings on module members), inline modules whose names need escaping
+    let hand = [
+        "<input model:value=\"{{ (a ? b : 1).c }}\" model:w=\"{{ (a ? null : o).k.j }}\"/><v wx:for=\"{{ (a ? l : [1]).x }}\">{{ item }}</v><v model:u=\"{{ (a ? f() : o).k }}\" model:t=\"{{ (a ? (b ? o : 2) : o).k }}\"/>",
+        "<wxs module=\"m\">exports.o = {}</wxs><v bind:tap=\"{{ (a ? m.o : 1).f }}\" change:p=\"{{ (a ? 2 : m.o).g }}\"/>",
+        "<wxs module='a\"b'>exports.x = 1</wxs><wxs module=\"a\\u\">exports.x = 2</wxs><wxs module=\"a\\\">exports.x = 3</wxs><wxs module=\"a\nb\">exports.x = 4</wxs><wxs module=\"q'${x}`\">exports.x = 5</wxs><v/>",
+    ];
+    for (i, s) in hand.iter().enumerate() {
+        for dev in [false, true] {
+            let mut tg = if dev { TmplGroup::new_dev() } else { TmplGroup::new() };
+            { crate::util::note_input(*s); tg.add_tmpl("pages/h", s) };
+            for (kind, src) in all_artefacts(&tg, &["pages/h".to_string()]) {
+                emit(out, &format!("hand{}{}", i, if dev { "d" } else { "" }), &kind, &src, Some(s));
+            }
+        }
+    }
     // malformed templates still have to produce valid JavaScript
     let bad = [
         "<v a=\"{{ a +\"/>", "<v", "<v a=\"{{ 0xg }}\">{{", "</v><w>", "<v wx:for=\"{{l}}\" wx:for-item=\"1x\" wx:for-index=\"a-b\">{{a-b}}</v>",
